@@ -15,6 +15,7 @@ executor runs in a forked child; the oracle is a list comparison against what th
 """
 import hashlib
 import io
+import json
 import random
 import sys
 
@@ -728,14 +729,31 @@ def exec_stream(plan):
             wm = kn['warm']
             dec.process(bytes.fromhex(wm['hex']), info_only=(wm['how'] == 'info'),
                         ignore_value_expectation=(wm['how'] == 'ive'))
+        from sim.observe import section_params
+        kept = []
         try:
             for m in generate_bufr_message(dec, stream, info_only=(kn['mode'] == 'info'),
                                            continue_on_error=kn['coe'],
                                            filter_expr=kn['filter']['expr'] if kn.get('filter') else None):
                 full = kn['mode'] == 'full' and hasattr(m, 'template_data')
-                tr['deliveries'].append(digest_message(m, full))
+                d = digest_message(m, full)
+                d['p'] = _h(json.dumps(section_params(m, 3)).encode())
+                tr['deliveries'].append(d)
+                if len(lay['stream']) < 70000:
+                    kept.append((m, full))
         except Exception as e:
             tr['exc'] = exc_info(e)
+        # the delivered objects are looked at again when the scan is over (a caller may collect them in a
+        # list): what a message says about itself must not change because later messages were read
+        late = []
+        for m, full in kept:
+            try:
+                d = digest_message(m, full)
+                d['p'] = _h(json.dumps(section_params(m, 3)).encode())
+            except Exception as e:
+                d = {'exc': exc_info(e)['type']}
+            late.append(d)
+        tr['late_same'] = [a == b for a, b in zip(tr['deliveries'], late)] if kept else None
         tr['stderr_skips'] = sys.stderr.getvalue().count('Continuing on next message')
         return tr
     name = 'in.bufr'
@@ -883,15 +901,18 @@ def exec_c17_multi(plan):
     dec = Decoder()
     q = MetadataQuerent(MetadataExprParser())
     out = []
+    kept = []
     from sim.observe import reset_step_budget
     for it in plan['items']:
         reset_step_budget()
         raw = bytes.fromhex(it['hex'])
         dmg = bufrgen.apply_fault(raw, it['fault']) if it.get('fault') else raw
         r = {'exc': None, 'q': [], 'sections': None}
+        kept.append(None)
         try:
             m = dec.process(dmg, info_only=(it['how'] == 'info'),
                             ignore_value_expectation=(it['how'] == 'full_ive'))
+            kept[-1] = m
             r['sections'] = [[s.get_metadata('index'), [[p.name, canon(p.value) if p.type != 'template_data' else '<td>']
                                                         for p in s]] for s in m.sections]
             for ex in it['exprs']:
@@ -903,6 +924,27 @@ def exec_c17_multi(plan):
         except Exception as e:
             r['exc'] = exc_info(e)
         out.append(r)
+    # every message object is asked again after all of them have been decoded: an answer is about the
+    # message at hand, whatever the decoder and the querent have seen since
+    for it, r, m in zip(plan['items'], out, kept):
+        if m is None:
+            continue
+        try:
+            secs = [[s.get_metadata('index'), [[p.name, canon(p.value) if p.type != 'template_data' else '<td>']
+                                                for p in s]] for s in m.sections]
+            lq = []
+            for ex in it['exprs']:
+                try:
+                    v = q.query(m, ex)
+                    lq.append([ex, 'ok', canon(v) if type(v).__name__ != 'TemplateData' else '<td>'])
+                except Exception as e:
+                    x = exc_info(e)
+                    lq.append([ex, 'err', {'type': x['type']}])
+            r['late_same'] = secs == r['sections'] and \
+                [[a, b, c if b == 'ok' else c['type']] for a, b, c in lq] == \
+                [[a, b, c if b == 'ok' else c['type']] for a, b, c in r['q']]
+        except Exception as e:
+            r['late_same'] = False
     return {'per': out}
 
 
@@ -1129,12 +1171,14 @@ def _check_deliveries(plan, tr, slots, deliv, base, clause, declared):
 
 def oracle(plan, tr):
     fam = plan['family']
-    if fam == 'c11':
-        return oracle_stream(plan, tr, 'C11')
-    if fam == 'c12':
-        return oracle_stream(plan, tr, 'C12')
-    if fam == 'c17-stream':
-        return oracle_stream(plan, tr, 'C17')
+    if fam in ('c11', 'c12', 'c17-stream'):
+        prop = {'c11': 'C11', 'c12': 'C12', 'c17-stream': 'C17'}[fam]
+        out = oracle_stream(plan, tr, prop)
+        if not out and tr.get('late_same') and not all(tr['late_same']):
+            # a delivered message object answers differently once later messages have been read
+            out.append({'property': prop, 'clause': prop + '.delivered-message-changes-afterwards',
+                        'mode': plan['knobs']['mode']})
+        return out
     if fam == 'c12-enum':
         out = []
         for sub, st in zip(enum_subplans(plan), tr['subs']):
@@ -1205,6 +1249,8 @@ def oracle(plan, tr):
                                 'how': it['how'], 'position': min(k, 1)})
             if out:
                 break
+        if not out and any(r.get('late_same') is False for r in tr['per']):
+            out.append({'property': 'C17', 'clause': 'C17.a-lookup-after-later-messages'})
         return out[:2]
     raise ValueError(fam)
 
